@@ -178,7 +178,11 @@ def run(ctx: Context) -> None:
         ctx.check('R02.3', ok, "the rows turned into polygons are points[rows] with rows passed as indices=", mh, sc)
         iv = flow.resolve(idx) if idx is not None else None
         ok = False
-        if isinstance(iv, ast.Call) and callee(ctx, mh, iv) == 'numpy.flatnonzero' and iv.args:
+        # numpy.nonzero(rows)[0] is flatnonzero(rows) for a one dimensional test
+        if isinstance(iv, ast.Subscript) and const_value(iv.slice, None) == 0 and isinstance(flow.resolve(iv.value), ast.Call) \
+                and callee(ctx, mh, flow.resolve(iv.value)) == 'numpy.nonzero':
+            iv = flow.resolve(iv.value)
+        if isinstance(iv, ast.Call) and callee(ctx, mh, iv) in ('numpy.flatnonzero', 'numpy.nonzero') and iv.args:
             t = flow.resolve(iv.args[0])
             ok = (isinstance(t, ast.Call) and isinstance(t.func, ast.Attribute) and t.func.attr == 'all'
                   and isinstance(flow.resolve(t.func.value), ast.Call) and callee(ctx, mh, flow.resolve(t.func.value)) == 'numpy.isfinite'
